@@ -384,6 +384,8 @@ def run(ctx) -> None:
     except AnalysisError as exc:
         ctx.defer(str(exc))
     ctx.guard(medform.check_medium_property, ctx, "C18.formulation")
+    ctx.rule("C18.boundary", "finite domain: which reactions are exchanges / demands / sinks (is_boundary_type, find_boundary_types evaluated over the case table they distinguish)", floor=2)
+    ctx.guard(medform.check_boundary_types, ctx, "C18.boundary")
     formulation_failed = len(ctx.findings) > n0 or bool(ctx.deferred)
     # the per-site readings (loop bodies evaluated one orientation at a time, the open_exchanges branch, the big-M
     # expression) explain; the formulation clause evaluates the same functions end to end and decides
